@@ -93,7 +93,7 @@ impl Clone for Op {
 impl Copy for Op {}
 
 impl LineCountValidator {
-//@unit id=V4 file=src/validators/line_count.rs fn=<<impl ValidatorSync for LineCountValidator::validate>> slice_from=<<let actual = if>> slice_to_block_end=1
+//@unit id=V4 file=src/validators/line_count.rs fn=<<impl ValidatorSync for LineCountValidator::validate>> slice_from=<<let actual =>> slice_to_block_end=1
 //@wrapper
 fn v4_check<'a>(
     block_with_context: &'a BlockWithContext,
@@ -123,10 +123,10 @@ fn v4_check<'a>(
         r is Err ==> final(violations)@ == old(violations)@, // [V4.post.err_leaves_report]
 //@tail
     Ok(())
-//@chain rule=E3 find=<<.lines() .filter(>> to=verif_lines_filter_count suffix=<<.count()>> extra=<<Ghost(|l: Seq<char>| !is_blank(l))>>
-//@closure rule=E12 find=<<|line|>> params=<<|line: &&str|>> ret=<<keep: bool>>
+//@chain rule=E3 find=<<.lines() .filter(>> to=verif_lines_filter_count optional=1 suffix=<<.count()>> extra=<<Ghost(|l: Seq<char>| !is_blank(l))>>
+//@closure rule=E12 find=<<|line|>> optional=1 params=<<|line: &&str|>> ret=<<keep: bool>>
     ensures keep == !is_blank(line@)
-//@edit rule=E5 find=<<violations.entry(file_path.clone()).or_insert_with(Vec::new).push(>>
+//@edit rule=E5 find=<<violations.entry(file_path.clone()).or_insert_with(Vec::new).push(>> optional=1
 verif_map_push(violations, file_path.clone(),
 //@end
 }
